@@ -1,7 +1,9 @@
 (* C09 -- The generated C++ (boost::sml) encodes exactly the table and is self-consistent. *)
 From Coq Require Import String List Bool Arith.
 From KV Require Import Lib.TableDef Model.TTable Gen.SmlTmpl Model.SmlTT Model.DeclShape Gen.DeclTmpl Model.Decls
-                       Proofs.TTableProofs Proofs.SmlProofs Proofs.DeclProofs Spec.TableInterp Proofs.SmlSemProofs.
+                       Proofs.TTableProofs Proofs.SmlProofs Proofs.DeclProofs Spec.TableInterp Proofs.SmlSemProofs
+                       Lib.Str Model.Engine Model.EngineSM Model.EngineDomain16 Model.SmlRender Proofs.SmlBridge.
+Import KV.Lib.TableDef KV.Model.TTable KV.Model.SmlTT.
 Import ListNotations.
 Open Scope string_scope.
 
@@ -40,6 +42,42 @@ Theorem C09_sem : forall t, t <> [] -> forallb row_ok t = true -> sml_names_ok t
   sml_run (gen_sml true t) evs gv = camel_steps (table_interp_quiet t evs (fun n g => gv n (camel_small g))).
 Proof. exact sml_sem. Qed.
 Print Assumptions C09_sem.
+
+(* THE ENGINE'S PRINTER.  gen_sml is not a separately written model of the table any more: the engine model (Model/EngineSM.v) contains
+   smgen.innerexpand_sml, the Python code behind <<<TTT_BOOST_SML>>> / <<<TTT_BOOST_SML_ENTRY_EXIT>>>, string by string (header
+   comment, padding to the longest present start state / event / guard / action, the `none` / `gnone` / msmf::none replacements
+   with their "__" and "msmf::" strippings, rstrip, the once-only entry / exit hook rows, the trailing loop over the states), as the
+   expansion function of the two single-tag stages.  For EVERY table of well-formed rows and every indentation: the text it appends
+   is the header line followed by the text of the items of gen_sml (Model/SmlRender.v: one line per item), so C09_rows /
+   C09_entry_exit / C09_sem are statements about what the engine writes. *)
+Theorem C09_engine_text : forall (tt : list EngineSM.row) (structs protos msgs : list string) (m : smodel) (ee : bool) (ws : string),
+  tt_model tt structs protos msgs = Some m -> forallb row_ok (table_of tt) = true ->
+  single_of m "innerexpand_sml" (if ee then "smmodel,True" else "smmodel,False") = Some (sml_print (sm_states m) (sm_rows m) ee)
+  /\ String.concat "" (sml_print (sm_states m) (sm_rows m) ee ws) = sml_text ws ee (table_of tt).
+Proof. exact sml_stage_text. Qed.
+Print Assumptions C09_engine_text.
+
+(* ... and the items that text consists of execute the table *)
+Theorem C09_sem_engine : forall (tt : list EngineSM.row) (structs protos msgs : list string) (m : smodel) (ws : string),
+  tt_model tt structs protos msgs = Some m -> table_of tt <> [] -> forallb row_ok (table_of tt) = true -> sml_names_ok (table_of tt) = true ->
+  String.concat "" (sml_print (sm_states m) (sm_rows m) true ws)
+  = (header_text ws (table_of tt) ++ String.concat "" (map (item_text ws (table_of tt)) (gen_sml true (table_of tt))))%string
+  /\ forall evs gv, sml_run (gen_sml true (table_of tt)) evs gv
+                    = camel_steps (table_interp_quiet (table_of tt) evs (fun n g => gv n (camel_small g))).
+Proof. exact sml_sem_engine. Qed.
+Print Assumptions C09_sem_engine.
+
+Example C09_engine_text_nonvacuous :
+  String.concat "" (sml_print ["SA"; "SB"] [["SA"; "EvX"; "SB"; "OnA"; "GuardG"]; ["SB"; "EvY"; "none"; "None"; ""]] true "  ")
+  = ("  // Start     +Event       [ Guard ]   / Action = Next" ++ nl_str ++
+     "   *state<SA>  +event<EvX>   [guardG]   / onA   = state<SB>" ++ nl_str ++
+     "  , state<SA> + boost::sml::on_entry<_> / sAOnEntry" ++ nl_str ++
+     "  , state<SA> + boost::sml::on_exit<_> / sAOnExit" ++ nl_str ++
+     "  , state<SB>  +event<EvY>   [gnone]    / none" ++ nl_str ++
+     "  , state<SB> + boost::sml::on_entry<_> / sBOnEntry" ++ nl_str ++
+     "  , state<SB> + boost::sml::on_exit<_> / sBOnExit" ++ nl_str)%string.   (* the text the real smgen.innerexpand_sml prints for this table *)
+Proof. vm_compute. reflexivity. Qed.
+Print Assumptions C09_engine_text_nonvacuous.
 
 (* Self-consistency, at the level of (declaration kind, name, parameter list) triples.  [decls_file f t i] is what file f
    declares: for every declaration line that translator/decltmpl.py finds inside a per-element block of f's template
